@@ -32,6 +32,7 @@ class AppCb:
             prio, pgn, sa, ts, data = a
             d = [int(x) for x in data]
             self.calls.append((sim.now, prio, pgn, sa, d))
+            st.last_cb_pgn = pgn          # (scripts may react to one PGN only: 'if_pgn')
             sim.trace.append((sim.now, st.idx, 'cb', self.cid, prio, pgn, sa, tuple(d)))
             st.emit([T_CB, self.cid, prio, pgn, sa, len(d)] + d)
         elif self.kind == 'timer':
@@ -319,15 +320,15 @@ class Stack:
 def fd_summary(d):
     s = [len(d._rcv_buffer)]
     for k, b in d._rcv_buffer.items():
-        s += [k, b['pgn'], b['session'], b['message_size'], b['num_segments'], b['next_packet'], b.get('next_cts_border', -1),
+        s += [hash_key(k), b['pgn'], b['session'], b['message_size'], b['num_segments'], b['next_packet'], b.get('next_cts_border', -1),
               len(b['data']), int(b['deadline']), b['src_address'], b['dest_address']]
     s.append(len(d._snd_buffer))
     for k, b in d._snd_buffer.items():
-        s += [k, b['pgn'], b['session'], b['state'], int(b['deadline']), b['next_packet_to_send'], b.get('next_wait_on_cts', -1),
+        s += [hash_key(k), b['pgn'], b['session'], b['state'], int(b['deadline']), b['next_packet_to_send'], b.get('next_wait_on_cts', -1),
               b['num_segments'], b['message_size'], len(b['data'])]
     s.append(len(d._multi_pg_snd_buffer))
     for k, b in d._multi_pg_snd_buffer.items():
-        s += [k, int(b['deadline']), b['fill_level'], len(b['cpg'])]
+        s += [hash_key(k), int(b['deadline']), b['fill_level'], len(b['cpg'])]
     s += [1 if x else 0 for x in d._J1939_22__rts_cts_session_list]
     s += [1 if x else 0 for x in d._J1939_22__bam_session_list]
     return s
